@@ -661,21 +661,25 @@ Definition generalize (dts : list var) (sc : scheme) : res scheme :=
       Ok (Quantified (length free) t' bs')
   | _ => Ok sc
   end.
-Definition fgeneralize (dts : list var) (fs : fscheme) : res fscheme :=
+(* generalize_with_leading for a function type: the declared type parameters `lead` of the
+   statement are quantified first, in the declared order (whether or not they occur), then the
+   remaining free variables in sorted order; bounds only for variables occurring in the type *)
+Definition fgeneralize (lead : list var) (dts : list var) (fs : fscheme) : res fscheme :=
   match fs with
   | FConcrete ps r =>
-      let free := fn_vars ps r in
-      let bs := bounds_for dts (fun v => existsb (var_eqb v) free) in
+      let occ := fn_vars ps r in
+      let free := lead ++ filter (fun v => negb (existsb (var_eqb v) lead)) occ in
+      let bs := bounds_for dts (fun v => existsb (var_eqb v) occ) in
       do ps' <- mapM (quantify_ty free 0) ps;
       do r' <- quantify_ty free 0 r;
       do bs' <- mapM (quantify_ty free 0) bs;
       Ok (FQuantified (length free) ps' r' bs')
   | _ => Ok fs
   end.
-Definition egeneralize (dts : list var) (g : env) : res env :=
+Definition egeneralize (lead : list var) (dts : list var) (g : env) : res env :=
   mapM (fun xe => match snd xe with
                   | IdNormal sc => do sc' <- generalize dts sc; Ok (fst xe, IdNormal sc')
-                  | IdFunction fs => do fs' <- fgeneralize dts fs; Ok (fst xe, IdFunction fs')
+                  | IdFunction fs => do fs' <- fgeneralize lead dts fs; Ok (fst xe, IdFunction fs')
                   end) g.
 
 (* exponents_for + lcm of the denominators *)
@@ -737,12 +741,13 @@ Definition check_statement (st : stmt) (s0 : tc) : res (sout * tc) :=
       match lcm_pass dts nodes1 sr1 with
       | Err _ => Err ESubstitutionError
       | Ok (_, sr2) =>
-          do env2 <- egeneralize dts env1;
+          let lead := map (fun p => VNamed (fst p)) (reg_tparams (tc_reg s1)) in
+          do env2 <- egeneralize lead dts env1;
           let s2 := mkTc env2 (tc_reg s1) (tc_next s1) (tc_cs s1) in
           match sr2 with
           | RExpr t => do sc <- generalize dts (Concrete t); Ok (OExpr sc, s2)
           | RLet x t => do sc <- generalize dts (Concrete t); Ok (OLet x sc, s2)
-          | RFn f ps rt _ => do fs <- fgeneralize dts (FConcrete ps rt); Ok (OFn f fs, s2)
+          | RFn f ps rt _ => do fs <- fgeneralize lead dts (FConcrete ps rt); Ok (OFn f fs, s2)
           | RUnit x t _ => do sc <- generalize dts (Concrete t); Ok (OUnit x sc, s2)
           | RDim => Ok (ODimDef, s2)
           | RProc => Ok (OProc, s2)
